@@ -19,5 +19,13 @@ elif sha == "949462a":
         "        if self.current_section()? == Section::Question {\n            self.parsed_packet_mut().cached = None;\n        }\n", "")
     sub("/repo/src/rr_iterator.rs",
         "        if section == Section::Question {\n            parsed_packet.cached = None;\n        }\n", "")
+elif sha == "948be65":
+    # (context lines changed with repair 6b73316) move the count check back behind the splice
+    sub("/repo/src/parsed_packet.rs",
+        "        let insertion_offset = self.insertion_offset(section)?;\n        self.rrcount_inc(section)?;\n",
+        "        let insertion_offset = self.insertion_offset(section)?;\n")
+    sub("/repo/src/parsed_packet.rs",
+        "            packet[insertion_offset..insertion_offset + rr_len].copy_from_slice(&rr.packet);\n        }\n        match section {",
+        "            packet[insertion_offset..insertion_offset + rr_len].copy_from_slice(&rr.packet);\n        }\n        self.rrcount_inc(section)?;\n        match section {")
 else:
     sys.exit(1)
